@@ -111,6 +111,17 @@ class Invalid(Exception):
     pass
 
 
+EXTENSION_TYPES = ("new-sdo", "new-sco", "new-sro", "property-extension", "toplevel-property-extension")
+
+
+def _deep_null_or_empty(x):
+    if isinstance(x, dict):
+        return len(x) == 0 or any(_deep_null_or_empty(v) for v in x.values())
+    if isinstance(x, list):
+        return len(x) == 0 or any(_deep_null_or_empty(v) for v in x)
+    return x is None
+
+
 def check_value(desc, v, model, ver, path):
     kind = desc["kind"]
     if v is None:
@@ -175,6 +186,17 @@ def check_value(desc, v, model, ver, path):
                 raise Invalid("%s: bad key %r" % (path, k))
             if x is None or (isinstance(x, (list, dict)) and len(x) == 0):
                 raise Invalid("%s.%s: null/empty" % (path, k))
+            if kind in ("DictionaryProperty", "ExtensionsProperty") and _deep_null_or_empty(x):
+                raise Invalid("%s.%s: null / empty list / empty dictionary nested inside" % (path, k))       # "no nulls or empty lists/dictionaries", at any depth
+            if kind == "ExtensionsProperty":
+                if not isinstance(x, dict):
+                    raise Invalid("%s.%s: an extension is a JSON object" % (path, k))
+                if k.startswith("extension-definition--"):
+                    # STIX 2.1 section 7.3: an extension names its extension_type, one of five values
+                    if "extension_type" not in x:
+                        raise Invalid("%s.%s: extension_type missing" % (path, k))
+                    if x["extension_type"] not in EXTENSION_TYPES:
+                        raise Invalid("%s.%s: unknown extension_type %r" % (path, k, x["extension_type"]))
         if kind == "HashesProperty":
             for k, x in v.items():
                 if not isinstance(x, str):
@@ -195,7 +217,7 @@ def check_object(cdesc, obj, model, ver, path="$", allow_extra=False):
         check_value(d, obj[name], model, ver, path + "." + name)
     for name in obj:
         if name not in cdesc["props"] and not allow_extra:
-            if "extensions" in obj and isinstance(obj["extensions"], dict) and any(
+            if ver == "2.1" and "type" in cdesc["props"] and "extensions" in obj and isinstance(obj["extensions"], dict) and any(
                     isinstance(e, dict) and e.get("extension_type") == "toplevel-property-extension" for e in obj["extensions"].values()):
                 continue
             raise Invalid("%s.%s: unknown property" % (path, name))
